@@ -127,13 +127,12 @@ func (mc *MetricsCollector) RecordResponse(success bool, responseTime time.Durat
 func (mc *MetricsCollector) RecordBackendRequest(backendName string, success bool, responseTime time.Duration) {
 	mc.metrics.mutex.Lock()
 
-	// Check if we're exceeding max backends limit
-	if len(mc.metrics.BackendMetrics) >= MaxBackendMetrics {
+	backend, exists := mc.metrics.BackendMetrics[backendName]
+	// The cap on the number of entries applies to new names only: a backend that has an entry keeps counting
+	if !exists && len(mc.metrics.BackendMetrics) >= MaxBackendMetrics {
 		mc.metrics.mutex.Unlock()
 		return // Drop metric to prevent unbounded growth
 	}
-
-	backend, exists := mc.metrics.BackendMetrics[backendName]
 	if !exists {
 		backend = &BackendMetrics{
 			Name:  backendName,
